@@ -32,12 +32,10 @@ REV = {"__radd__": "UAdd", "__rsub__": "USub", "__rmul__": "UMul", "__rtruediv__
        "__rand__": "UAnd", "__ror__": "UOr"}
 UOPS = ["UAdd", "USub", "UMul", "UDiv", "UMod", "UEq", "UNeq", "ULt", "ULe", "UGt", "UGe", "UAnd", "UOr"]
 
-PINNED = {  # (file, class or None, function) -> sha1[:12] of the AST dump
-    ("column.py", "Column", "__init__"): "?",
-    ("column.py", "Column", "_lit"): "?",
-    ("column.py", "Column", "column_expression"): "?",
-    ("column.py", "Column", "ensure_col"): "?",
-    ("column.py", "Column", "copy"): "?",
+# Column.__init__, _lit, column_expression, ensure_col, copy and functions.col / lit are NOT pinned by hash (they are
+# edited for reasons unrelated to C05, e.g. exotic literals): what the model assumes of them is probed behaviourally on
+# every run by checks/c05.helper_probes and, on every sampled tree, by the T2 text comparison.
+PINNED = {  # (file, class or None, function) -> hash of the normalised AST
     ("column.py", "Column", "invoke_expression_over_column"): "?",
     ("column.py", "Column", "invoke_anonymous_function"): "?",
     ("column.py", "Column", "when"): "?",
@@ -47,8 +45,6 @@ PINNED = {  # (file, class or None, function) -> sha1[:12] of the AST dump
     ("column.py", "Column", "alias"): "?",
     ("column.py", "Column", "getItem"): "?",
     ("column.py", "Column", "getField"): "?",
-    ("functions.py", None, "col"): "?",
-    ("functions.py", None, "lit"): "?",
     ("functions.py", None, "when"): "?",
     ("functions.py", None, "element_at"): "?",
     ("functions.py", None, "endswith"): "?",
